@@ -1,4 +1,5 @@
-import Lean
+import Lean.Elab.Command
+import Lean.Util.CollectAxioms
 /-!
   `#audit_ns Foo.Bar` prints, for every theorem whose name starts with `Foo.Bar`, one JSON line
   `{"theorem": …, "axioms": […]}` (the output of `#print axioms`, machine readable).
@@ -10,12 +11,12 @@ open Lean Elab Command
 elab "#audit_ns " ns:ident : command => do
   let env ← getEnv
   let nsName := ns.getId
-  let mut names : Array Name := #[]
-  for (n, ci) in env.constants.toList do
+  let names : Array Name := env.constants.fold (init := #[]) fun acc n ci =>
     if nsName.isPrefixOf n && !n.isInternalDetail then
       match ci with
-      | .thmInfo _ => names := names.push n
-      | _ => pure ()
+      | .thmInfo _ => acc.push n
+      | _ => acc
+    else acc
   let sorted := names.qsort (fun a b => a.toString < b.toString)
   for n in sorted do
     let axs ← liftCoreM (collectAxioms n)
